@@ -96,6 +96,7 @@ class CellObject(Points, ABC):
 
         if (
             isinstance(self.cells, np.ndarray)
+            and indices.size > 0
             and np.max(indices) > self.cells.shape[0] - 1
         ):
             raise ValueError("Found indices larger than the number of cells.")
